@@ -725,7 +725,9 @@ class TypeshedFinder:
                 self.log("Ignoring invalid name", fq_name)
                 return None
             return _TYPING_ALIASES.get(fq_name, fq_name)
-        except (AttributeError, TypeError):
+        except Exception:
+            # AttributeError or TypeError normally, but a __getattr__ hook
+            # may raise anything
             self.log("Ignoring object without module or qualname", obj)
             return None
 
